@@ -96,8 +96,9 @@ let strat_of = function
   | "newer" -> Newer | "larger" -> Larger | "smaller" -> Smaller | "source" -> PreferSource | "dest" -> PreferDest | _ -> RenameBoth
 let all_strats = [Newer; Larger; Smaller; PreferSource; PreferDest; RenameBoth]
 let bisync_universe (ids : int list) : int list =
-  let l1 = List.concat_map (fun p -> [4*p+1; 4*p+2]) ids in
-  let l2 = List.concat_map (fun p -> [4*p+1; 4*p+2]) l1 in
+  let cn p = List.concat_map (fun k -> [16*p + 4*k + 1; 16*p + 4*k + 2]) [0; 1; 2; 3] in
+  let l1 = List.concat_map cn ids in
+  let l2 = List.concat_map cn l1 in
   List.sort_uniq compare (ids @ l1 @ l2)
 let fmt_side (u : int list) (m : n -> fent option) =
   String.concat "," (List.filter_map (fun p -> match m (n_of_int p) with
